@@ -37,8 +37,11 @@ def isamp(x, fs):
 # trees
 # ---------------------------------------------------------------------------------------
 
-FINITE = {'gate', 'env', 'fixed', 'repeat'}
-LEAVES = {'tone', 'samtone', 'silence', 'bbn', 'blnoise', 'firnoise', 'shaped', 'sqwave', 'fixed'}
+FINITE = {'gate', 'env', 'fixed', 'repeat', 'chirp', 'click', 'blclick', 'wav'}
+LEAVES = {'tone', 'samtone', 'silence', 'bbn', 'blnoise', 'firnoise', 'shaped', 'sqwave', 'fixed',
+          'chirp', 'click', 'blclick', 'wav'}
+# FixedWaveform subclasses whose array is computed by the library: opaque `fixed` leaves of the model
+FIXED_LIKE = {'chirp', 'click', 'blclick', 'wav'}
 
 
 def _cal():
@@ -47,55 +50,205 @@ def _cal():
 
 
 def fixed_array(node):
-    return np.random.RandomState(node['seed']).standard_normal(node['n'])
+    """The array handed to FixedWaveform: float64 by default; other dtypes / memory layouts on request."""
+    n = node['n']
+    layout = node.get('layout')
+    m = 2 * n if layout == 'strided' else n
+    x = np.random.RandomState(node['seed']).standard_normal(m)
+    dt = node.get('dtype', 'f8')
+    if dt in ('i2', 'i4'):
+        x = np.round(x * 50).astype({'i2': np.int16, 'i4': np.int32}[dt])
+    elif dt == 'u1':
+        x = np.abs(np.round(x * 50)).astype(np.uint8)
+    elif dt == 'f4':
+        x = x.astype(np.float32)
+    elif dt == 'b':
+        x = x > 0
+    if layout == 'strided':
+        x = x[::2]
+    elif layout == 'rev':
+        x = x[::-1]
+    elif layout == 'readonly':
+        x.setflags(write=False)
+    return x
 
 
-def build_real(node):
-    """The real psiaudio factory described by `node`."""
+# pointwise transforms for EnvelopeFactory(transform=...) / envelope(transform=...): module-level, hashable
+def tf_sqrt(env):
+    return np.sqrt(np.abs(env))     # (blackman is slightly negative at its ends)
+
+
+def tf_flip(env):
+    return 1.0 - env
+
+
+def tf_db(env):
+    return 10.0 ** (env - 1.0)
+
+
+TRANSFORMS = {'sqrt': tf_sqrt, 'flip': tf_flip, 'db': tf_db}
+
+
+def rep(x, how):
+    """The same value in another representation (Python float / NumPy scalar / Python int)."""
+    if x is None or how in (None, 'float'):
+        return x
+    if how == 'np':
+        return np.float64(x)
+    if how == 'int' and float(x) == int(x):
+        return int(x)
+    return x
+
+
+def wav_path(node):
+    """A wav file with deterministic content (written once per content, atomically)."""
+    import os
+    import tempfile
+    from scipy.io import wavfile
+    name = 'psi_hstim_%d_%d_%s_%d_%d.wav' % (os.getuid(), node['n'], node['wdtype'], node['file_fs'], node['seed'])
+    path = os.path.join(tempfile.gettempdir(), name)
+    if not os.path.exists(path):
+        x = np.random.RandomState(node['seed']).uniform(-1, 1, node['n'])
+        data = (x * 30000).astype(np.int16) if node['wdtype'] == 'i2' else x.astype(np.float32)
+        tmp = '%s.%d.tmp' % (path, os.getpid())
+        wavfile.write(tmp, int(node['file_fs']), data)
+        os.replace(tmp, path)
+    return path
+
+
+def _make(cls, params, kw):
+    """Call `cls` with every parameter positional (kw false) or every parameter by keyword."""
+    if kw:
+        return cls(**dict(params))
+    return cls(*[v for _, v in params])
+
+
+def build_real(node, pool=None):
+    """The real psiaudio factory described by `node`.
+
+    Optional node keys (all default to the plain spelling): `kw` every argument by keyword; `fsrep` / `trep`
+    representation of the sampling rate / of the times ('np' NumPy scalar, 'int' Python int when integral);
+    per-class options at non-default values.  `pool` (dict) makes `fixed` leaves with equal descriptions share
+    one ndarray object between several factories.
+    """
+    import logging
     from psiaudio import stim
+    logging.getLogger('psiaudio.stim').setLevel(logging.ERROR)
     t = node['t']
+    kw = node.get('kw', False)
+    fs = rep(node.get('fs'), node.get('fsrep'))
+    tr = node.get('trep')
+    cal = _cal() if node.get('cal') else None
     if t == 'tone':
-        return stim.ToneFactory(node['fs'], node['frequency'], node['level'], node.get('phase', 0),
-                                node.get('polarity', 1))
+        return _make(stim.ToneFactory, [('fs', fs), ('frequency', node['frequency']), ('level', node['level']),
+                                        ('phase', node.get('phase', 0)), ('polarity', node.get('polarity', 1)),
+                                        ('calibration', cal)], kw)
     if t == 'samtone':
-        return stim.SAMToneFactory(node['fs'], node['fc'], node['fm'], node['level'])
+        return _make(stim.SAMToneFactory, [('fs', fs), ('fc', node['fc']), ('fm', node['fm']), ('level', node['level']),
+                                           ('depth', 1), ('phase', node.get('phase', 0)),
+                                           ('phase_lb', node.get('phase_lb', 0)), ('phase_ub', node.get('phase_ub', 0)),
+                                           ('polarity', node.get('polarity', 1)), ('eq_power', node.get('eq_power', True)),
+                                           ('equalize', node.get('equalize', True)), ('calibration', cal)], kw)
     if t == 'silence':
-        return stim.SilenceFactory(node['fill'])
+        return _make(stim.SilenceFactory, [('fill_value', node['fill'])], kw)
     if t == 'bbn':
-        return stim.BroadbandNoiseFactory(node['fs'], node['level'], seed=node['seed'],
-                                          polarity=node.get('polarity', 1))
+        return _make(stim.BroadbandNoiseFactory, [('fs', fs), ('level', node['level']), ('seed', node['seed']),
+                                                  ('equalize', False), ('polarity', node.get('polarity', 1)),
+                                                  ('calibration', cal)], kw)
     if t == 'blnoise':
-        return stim.BandlimitedNoiseFactory(node['fs'], node['seed'], node['level'], node['fl'], node['fh'],
-                                            1, 1, 80, polarity=node.get('polarity', 1))
+        return _make(stim.BandlimitedNoiseFactory,
+                     [('fs', fs), ('seed', node['seed']), ('level', node['level']), ('fl', node['fl']),
+                      ('fh', node['fh']), ('filter_rolloff', node.get('rolloff', 1)),
+                      ('passband_attenuation', node.get('pass_att', 1)), ('stopband_attenuation', node.get('stop_att', 80)),
+                      ('equalize', False), ('polarity', node.get('polarity', 1)), ('calibration', cal),
+                      ('discard_initial_samples', node.get('discard', True))], kw)
     if t == 'firnoise':
-        return stim.BandlimitedFIRNoiseFactory(node['fs'], node['fl'], node['fh'], node['level'],
-                                               ntaps=node['ntaps'], seed=node['seed'], calibration=_cal())
+        return _make(stim.BandlimitedFIRNoiseFactory,
+                     [('fs', fs), ('fl', node['fl']), ('fh', node['fh']), ('level', node['level']),
+                      ('ntaps', node['ntaps']), ('window', node.get('window', 'hann')),
+                      ('polarity', node.get('polarity', 1)), ('seed', node['seed']),
+                      ('max_correction', node.get('max_correction', np.inf)), ('equalize', node.get('equalize', False)),
+                      ('calibration', _cal())], kw)
     if t == 'shaped':
         gains = {0: -60, node['fl']: 0, node['fh']: 0, node['fs'] / 2: -60}
-        return stim.ShapedNoiseFactory(node['fs'], node['level'], gains, ntaps=node['ntaps'], seed=node['seed'])
+        return _make(stim.ShapedNoiseFactory,
+                     [('fs', fs), ('level', node['level']), ('gains', gains), ('ntaps', node['ntaps']),
+                      ('window', node.get('window', 'hann')), ('polarity', node.get('polarity', 1)),
+                      ('seed', node['seed']), ('calibration', cal)], kw)
     if t == 'sqwave':
-        return stim.SquareWaveFactory(node['fs'], node['level'], node['frequency'], node['duty'])
+        return _make(stim.SquareWaveFactory, [('fs', fs), ('level', node['level']), ('frequency', node['frequency']),
+                                              ('duty_cycle', node['duty'])], kw)
     if t == 'fixed':
-        return stim.FixedWaveform(node['fs'], fixed_array(node))
-    inner = build_real(node['in'])
+        if pool is None:
+            arr = fixed_array(node)
+        else:
+            key = C.case_hash({k: v for k, v in node.items() if k not in ('kw', 'fsrep')})
+            arr = pool.setdefault(key, fixed_array(node))
+        return _make(stim.FixedWaveform, [('fs', fs), ('waveform', arr)], kw)
+    if t == 'chirp':
+        return _make(stim.ChirpFactory,
+                     [('fs', fs), ('start_frequency', node['f0']), ('end_frequency', node['f1']),
+                      ('duration', rep(node['dur'], tr)), ('level', node['level']), ('calibration', cal),
+                      ('window', node.get('window', 'boxcar')), ('equalize', node.get('equalize', False))], kw)
+    if t == 'click':
+        return _make(stim.ClickFactory, [('fs', fs), ('duration', rep(node['dur'], tr)), ('level', node['level']),
+                                         ('polarity', node.get('polarity', 1)), ('calibration', _cal())], kw)
+    if t == 'blclick':
+        return _make(stim.BandlimitedClickFactory,
+                     [('fs', fs), ('flb', node['fl']), ('fub', node['fh']), ('window', rep(node['dur'], tr)),
+                      ('level', node['level']), ('calibration', cal), ('equalize', node.get('equalize', False))], kw)
+    if t == 'wav':
+        return _make(stim.WavFileFactory,
+                     [('fs', fs), ('filename', wav_path(node)), ('level', node.get('level')), ('calibration', cal),
+                      ('normalization', node.get('norm', 'pe'))], kw)
+    inner = build_real(node['in'], pool)
     if t == 'gate':
-        return stim.GateFactory(node['fs'], node['start'], node['dur'], inner)
+        return _make(stim.GateFactory, [('fs', fs), ('start_time', rep(node['start'], tr)),
+                                        ('duration', rep(node['dur'], tr)), ('input_factory', inner)], kw)
     if t == 'env':
         if node['window'] == 'cos2factory':
-            return stim.Cos2EnvelopeFactory(node['fs'], node['dur'], node['rise'], inner, node['start'])
-        return stim.EnvelopeFactory(node['window'], node['fs'], node['dur'], node['rise'], inner,
-                                    start_time=node['start'])
+            return _make(stim.Cos2EnvelopeFactory,
+                         [('fs', fs), ('duration', rep(node['dur'], tr)), ('rise_time', rep(node['rise'], tr)),
+                          ('input_factory', inner), ('start_time', rep(node['start'], tr))], kw)
+        params = [('envelope', node['window']), ('fs', fs), ('duration', rep(node['dur'], tr)),
+                  ('rise_time', rep(node['rise'], tr)), ('input_factory', inner),
+                  ('start_time', rep(node['start'], tr))]
+        if node.get('transform'):
+            params.append(('transform', TRANSFORMS[node['transform']]))
+        return _make(stim.EnvelopeFactory, params, kw)
     if t == 'sam':
-        return stim.SAMEnvelopeFactory(node['fs'], node['depth'], node['fm'], node['delay'],
-                                       node.get('direction', 1), inner)
+        params = [('fs', fs), ('depth', node['depth']), ('fm', node['fm']), ('delay', rep(node['delay'], tr)),
+                  ('direction', node.get('direction', 1)), ('input_factory', inner)]
+        if node.get('onset'):
+            params.append(('onset_method', node['onset']))
+        return _make(stim.SAMEnvelopeFactory, params, kw)
     if t == 'sqenv':
-        return stim.SquareWaveEnvelopeFactory(node['fs'], node['depth'], node['fm'], node['duty'], None, inner,
-                                              alpha=node.get('alpha', 0))
+        return _make(stim.SquareWaveEnvelopeFactory,
+                     [('fs', fs), ('depth', node['depth']), ('fm', node['fm']), ('duty_cycle', node['duty']),
+                      ('calibration', cal), ('input_factory', inner), ('alpha', node.get('alpha', 0))], kw)
     if t == 'notch':
-        return stim.NotchFilterFactory(node['fs'], node['freq'], node['q'], inner)
+        return _make(stim.NotchFilterFactory, [('fs', fs), ('notch_frequency', node['freq']), ('q', node['q']),
+                                               ('input_factory', inner)], kw)
     if t == 'repeat':
-        return stim.RepeatFactory(node['fs'], node['n'], node['skip'], node['rate'], node['delay'], inner)
+        return _make(stim.RepeatFactory, [('fs', fs), ('n', node['n']), ('skip_n', node['skip']), ('rate', node['rate']),
+                                          ('delay', rep(node['delay'], tr)), ('input_factory', inner)], kw)
     raise ValueError(t)
+
+
+_len_cache = {}
+
+
+def fixed_len(node):
+    """Array length of a FixedWaveform subclass instance (the library computes the array; the model treats it
+    as an opaque fixed waveform of that length)."""
+    key = C.case_hash({k: v for k, v in node.items() if k not in ('kw', 'fsrep', 'trep')})
+    if key not in _len_cache:
+        _len_cache[key] = len(build_real(node).waveform)
+    return _len_cache[key]
+
+
+def has_transform(node):
+    return bool(node.get('transform')) or ('in' in node and has_transform(node['in']))
 
 
 def is_fir(node):
@@ -167,6 +320,7 @@ class Plan:
         self.counter = itertools.count()
         self.expr = ' '.join(self._expr(tree))
         self._src = {}
+        self.hint = 0            # total number of samples the case draws: sources are built once at that size
 
     def _expr(self, node):
         t = node['t']
@@ -181,6 +335,8 @@ class Plan:
             return ['sqwave', node_id, str(cycle), str(on)]
         if t == 'fixed':
             return ['fixed', node_id, str(node['n'])]
+        if t in FIXED_LIKE:
+            return ['fixed', node_id, str(fixed_len(node))]
         if t == 'gate':
             fs = node['fs']
             return ['gate', str(int(round(node['start'] * fs))), str(int(round(node['dur'] * fs)))] \
@@ -210,13 +366,17 @@ class Plan:
             have = len(cur[0]) if letter == 'F' else (need if np.ndim(cur) == 0 else len(cur))
             if have >= need:
                 return cur
+            need = max(need, 2 * have)
+        need = max(need, getattr(self, 'hint', 0))
         node = self.nodes[i]
         t = node['t']
         from psiaudio import stim
         from scipy import signal
         if letter == 'C':
             if t == 'fixed':
-                arr = fixed_array(node)
+                arr = np.asarray(fixed_array(node))
+            elif t in FIXED_LIKE:
+                arr = np.array(build_real(node).waveform)
             else:
                 # one fresh full-length draw of the real carrier
                 arr = np.asarray(build_real(node).next(max(need, 1)))
@@ -473,6 +633,8 @@ def marks_of(node):
         out += [cycle, on, cycle + on, 2 * cycle]
     elif t == 'fixed':
         out += [node['n']]
+    elif t in FIXED_LIKE:
+        out += [fixed_len(node)]
     elif t == 'repeat':
         fs = node['fs']
         p = int(round(fs / node['rate']))
@@ -491,6 +653,8 @@ def total_of(node):
         return int(round(node['start'] * fs)) + int(round(node['dur'] * fs))
     if t == 'fixed':
         return node['n']
+    if t in FIXED_LIKE:
+        return fixed_len(node)
     if t == 'repeat':
         return (node['n'] + node['skip']) * int(round(fs / node['rate']))
     return None
